@@ -375,5 +375,5 @@ add("C05", "chain grouping key from the first operator alone", "nifty/cl/operato
 add("C36", "normalised residual operator remembered on the likelihood", "nifty/cl/operators/energy_operators.py", "        return (self._sqrt_data_metric_at(x) @ self._res).force(x)", "        if getattr(self, \"_nres\", None) is None:\n            self._nres = self._sqrt_data_metric_at(x) @ self._res\n        return self._nres.force(x)", "R36.7")
 add("C36", "prefix operators zipped with all summands", "nifty/cl/operators/energy_operators.py", "                                for pp, oo in zip(prep, data_ops)))", "                                for pp, oo in zip(prep, ops)))", "R36.8")
 add("C31", "flat grid re-derives level shapes by a running product", "nifty/re/multi_grid/grid.py", "                shapes.append(atlvl.shape)", "                shapes.append(tuple(np.asarray(self.grid.shape0) * 2**lvl))", "R31.8")
-add("C31", "log-grid volume in Jacobian form", "nifty/re/multi_grid/grid_impl.py", "        return jnp.prod(coords[1] - coords[0], axis=0, keepdims=True)", "        return jnp.prod(self.index2coord(index) * (coords[1] - coords[0]) / self.index2coord(index), axis=0, keepdims=True)", "R31.9")
+add("C31", "log-grid volume in Jacobian form", "nifty/re/multi_grid/grid_impl.py", "        return jnp.prod(coords[1] - coords[0], axis=0, keepdims=True)", "        return jnp.prod(self.index2coord(index) * self.coord_scale * super().index2volume(index), axis=0, keepdims=True)", "R31.9")
 VARIANTS = V
